@@ -164,7 +164,7 @@ def compile_unit(path, config="default", extra=(), repo=None, mem2reg=True, inli
         # (no early return when there is nothing to inline: the same function-level normalisation - jump threading of
         # short-circuit conditions - is applied to every unit, so that a unit is analysed in one form whether or not it
         # happens to contain a helper)
-        tag = hashlib.sha1((path + "|" + config + "|" + " ".join(extra) + "|" + " ".join(OVERLAY) + "|inl3+jt|" + ",".join(victims)).encode()).hexdigest()[:12]
+        tag = hashlib.sha1((path + "|" + config + "|" + " ".join(extra) + "|" + " ".join(OVERLAY) + "|inl4+jt|" + ",".join(victims)).encode()).hexdigest()[:12]
         stem = os.path.join(wd, os.path.basename(path).replace(".", "_") + "_" + config + "_" + tag)
         js = stem + ".json"
         if os.path.exists(js):
@@ -173,7 +173,7 @@ def compile_unit(path, config="default", extra=(), repo=None, mem2reg=True, inli
         text = _mark_always_inline(open(ll).read(), set(victims))
         with open(stem + ".in.ll", "w") as f:
             f.write(text)
-        r = subprocess.run(["opt-14", "-passes=always-inline,function(mem2reg),always-inline,function(mem2reg,jump-threading)", "-S", stem + ".in.ll", "-o", stem + ".inl.ll"],
+        r = subprocess.run(["opt-14", "-passes=always-inline,function(lower-expect,mem2reg),always-inline,function(lower-expect,mem2reg,jump-threading)", "-S", stem + ".in.ll", "-o", stem + ".inl.ll"],
                            capture_output=True, text=True)
         if r.returncode != 0:
             raise ir.AnalysisError("opt (always-inline) failed on %s: %s" % (path, r.stderr[-2000:]))
@@ -192,7 +192,7 @@ def compile_unit(path, config="default", extra=(), repo=None, mem2reg=True, inli
     if r.returncode != 0:
         raise ir.AnalysisError("unit does not compile: %s [%s]\n%s" % (path, config, r.stderr[-3000:]))
     if mem2reg:
-        r = subprocess.run(["opt-14", "-passes=mem2reg", "-S", ll, "-o", ll2], capture_output=True, text=True)
+        r = subprocess.run(["opt-14", "-passes=function(lower-expect,mem2reg)", "-S", ll, "-o", ll2], capture_output=True, text=True)
         if r.returncode != 0:
             raise ir.AnalysisError("opt failed on %s: %s" % (path, r.stderr[-2000:]))
     else:
@@ -281,7 +281,7 @@ def api_view(name, text, units, entry, config="default", extra=(), repo=None):
     victims = defined - set(entry)
     with open(stem + ".in.ll", "w") as f:
         f.write(_mark_always_inline(text_ll, victims))
-    r = subprocess.run(["opt-14", "-passes=always-inline,function(mem2reg),always-inline,function(mem2reg,jump-threading)", "-S", stem + ".in.ll", "-o", stem + ".inl.ll"],
+    r = subprocess.run(["opt-14", "-passes=always-inline,function(lower-expect,mem2reg),always-inline,function(lower-expect,mem2reg,jump-threading)", "-S", stem + ".in.ll", "-o", stem + ".inl.ll"],
                        capture_output=True, text=True)
     if r.returncode != 0:
         raise ir.AnalysisError("opt (always-inline) failed on %s: %s" % (name, r.stderr[-2000:]))
